@@ -209,7 +209,7 @@ def main(tier):
         # sequences on the same object, end to end (tiny field: wires of a false-guard region are all free)
         scfg = {"P": 13, "bitlength": 2, "resolution": 1}
         sp = seq_programs(tier)
-        st = common.run_programs(scfg, sp)
+        st = common.run_programs(scfg, sp, fresh=True)          # one interpreter per program: these are about state that survives between calls
         insts = [i for i in (instances.from_trace_e2e(t, "unique") for t in st) if i and i["out"] == "ok" and i["res"]]
         for i in insts:
             run.nontrivial.add((13, i["op"], "e2e", i["gmode"]))
@@ -218,7 +218,7 @@ def main(tier):
         common.validate_insts(run, "Soundness", insts, cfg="Soundness_C02.cfg", label="e2e sequences", programs=sp, chunk=25, parallel=8)
     if not run.violations:
         bp = block_programs(tier)
-        bt = common.run_programs({"P": 13, "bitlength": 2, "resolution": 1}, bp)
+        bt = common.run_programs({"P": 13, "bitlength": 2, "resolution": 1}, bp, fresh=True)
         insts = [i for i in (instances.from_trace_e2e(t, "unique") for t in bt) if i and i["out"] == "ok" and i["res"]]
         for i in insts:
             run.nontrivial.add((13, i["op"], "e2e", i["gmode"]))
